@@ -62,7 +62,7 @@ def cases(tier, seed):
         if vertical:
             info.update({"openTypeVheaVertTypoAscender": 500, "openTypeVheaVertTypoDescender": -500, "openTypeVheaVertTypoLineGap": 0})
             if rng.random() < 0.7:
-                ufo["verticalOrigin"] = {nm: rng.choice([880, 880, 900, 750.5]) for nm in names if rng.random() < 0.7}
+                ufo["verticalOrigin"] = {nm: rng.choice([880, 880, 900, 750.5, 0, 0.0, -120]) for nm in names if rng.random() < 0.7}
         if rng.random() < 0.3:
             glyphs[".notdef"] = {"cs": [], "comps": [], "anchors": [], "w": 0, "h": 0, "u": []}
         out.append({"cid": f"c04-{seed}-{k}", "lib": rng.choice(["ufoLib2", "defcon"]), "flavor": flavor, "ufo": ufo,
